@@ -5,6 +5,7 @@ C10 — timeouts, non-blocking mode and missing runtimes behave as documented
 Property theorems only; helper lemmas live in `Lemmas/`.
 -/
 import DeadpoolVerif.Lemmas.Frame
+import DeadpoolVerif.Model.Builder
 import DeadpoolVerif.Lemmas.LinkStep
 
 namespace DeadpoolVerif
@@ -217,5 +218,51 @@ theorem C10_no_timeout_recycle (cfg : Cfg) (acts : List Action) :
       subst e
       have := hg rfl
       cases x <;> simp_all [noTimeoutRecycle, Op.isGet]
+
+/-! ### `PoolBuilder`: what a sequence of configuration calls leaves behind -/
+
+open Bld in
+/-- **C10 (the builder writes what it is told).** Each configuration call of `PoolBuilder`
+changes exactly the field it names and leaves the others alone: `max_size`, each of the three
+timeouts and the queue mode are independent, `timeouts(t)` replaces all three timeouts,
+`config(c)` replaces everything. -/
+theorem C10_builder_frame (b : Conf) :
+    (∀ n, (apply b (.maxSize n)).maxSize = n ∧ (apply b (.maxSize n)).tmo = b.tmo ∧
+      (apply b (.maxSize n)).lifo = b.lifo) ∧
+    (∀ t, (apply b (.timeouts t)).tmo = t ∧ (apply b (.timeouts t)).maxSize = b.maxSize ∧
+      (apply b (.timeouts t)).lifo = b.lifo) ∧
+    (∀ d, (apply b (.wait d)).tmo = { b.tmo with wait := d } ∧
+      (apply b (.wait d)).maxSize = b.maxSize ∧ (apply b (.wait d)).lifo = b.lifo) ∧
+    (∀ d, (apply b (.create d)).tmo = { b.tmo with create := d } ∧
+      (apply b (.create d)).maxSize = b.maxSize ∧ (apply b (.create d)).lifo = b.lifo) ∧
+    (∀ d, (apply b (.recycle d)).tmo = { b.tmo with recycle := d } ∧
+      (apply b (.recycle d)).maxSize = b.maxSize ∧ (apply b (.recycle d)).lifo = b.lifo) ∧
+    (∀ l, (apply b (.queueMode l)).lifo = l ∧ (apply b (.queueMode l)).maxSize = b.maxSize ∧
+      (apply b (.queueMode l)).tmo = b.tmo) ∧
+    (∀ c, apply b (.config c) = c) :=
+  ⟨fun _ => ⟨rfl, rfl, rfl⟩, fun _ => ⟨rfl, rfl, rfl⟩, fun _ => ⟨rfl, rfl, rfl⟩,
+   fun _ => ⟨rfl, rfl, rfl⟩, fun _ => ⟨rfl, rfl, rfl⟩, fun _ => ⟨rfl, rfl, rfl⟩, fun _ => rfl⟩
+
+open Bld in
+/-- **C10 (call order).** For any sequence of calls: a final `config(c)` wins over everything
+before it; without any call the pool has the default size, no timeouts and Fifo; and what a
+field holds in the end is what the *last* call that writes it said — calls that write other
+fields in between do not matter (stated for `recycle_timeout` against `max_size`,
+`wait_timeout`, `create_timeout` and `queue_mode`, the combination the pool's recycle timeout
+rests on). -/
+theorem C10_builder_order (dflt : Nat) (cs : List Call) :
+    (∀ c, applyAll dflt (cs ++ [.config c]) = c) ∧
+    applyAll dflt [] = { maxSize := dflt, tmo := {}, lifo := false } ∧
+    (∀ d n w c l, (applyAll dflt (cs ++ [.recycle d, .maxSize n, .wait w, .create c, .queueMode l])).tmo.recycle = d) ∧
+    (∀ d n, (applyAll dflt (cs ++ [.maxSize n, .recycle d])).maxSize = n ∧
+      (applyAll dflt (cs ++ [.maxSize n, .recycle d])).tmo.recycle = d) := by
+  refine ⟨?_, rfl, ?_, ?_⟩
+  · intro c; simp [applyAll, List.foldl_append, apply]
+  · intro d n w c l; simp [applyAll, List.foldl_append, apply]
+  · intro d n; simp [applyAll, List.foldl_append, apply]
+
+/-- not vacuous -/
+example : Bld.applyAll 64 [.wait (some 5), .maxSize 3, .recycle (some 7), .queueMode true] =
+    { maxSize := 3, tmo := { wait := some 5, recycle := some 7 }, lifo := true } := rfl
 
 end DeadpoolVerif
